@@ -364,6 +364,34 @@ func runC09(r *Run) {
 		n := checkErrorsFailTheMessage(r, "R12", fns, "the steps made before the failing one (coins sent, account rewritten) are committed")
 		r.Floor("R12", "error-returning Context-taking calls in the vesting message path", n, 8)
 	}
+	r.Rule("R13", "FLOW.funder-stored-canonically: Clawback, the merge check and the funder update compare the recorded FunderAddress with the canonical (lower-case bech32) String() of the signer's address; every value stored into ClawbackVestingAccount.FunderAddress is such a String() of a parsed address — never a message's raw string, which may be the same address in another spelling (all-upper-case bech32 passes validation): a funder recorded in a foreign spelling can never claw back")
+	{
+		nF := 0
+		for _, fn := range r.P.Funcs {
+			if !strings.HasPrefix(fnPkgPath(fn), haqqMod+"/x/vesting") && !strings.HasPrefix(fnPkgPath(fn), haqqMod+"/x/liquidvesting") || isTestSupport(r.P, fn) || fn.Synthetic != "" || isGeneratedFile(r.P.FileOf(fnPos(outermost(fn)))) {
+				continue
+			}
+			eachInstr(fn, func(in ssa.Instruction) {
+				st, ok := in.(*ssa.Store)
+				if !ok {
+					return
+				}
+				if sn, f, ok := fieldOfAddr(st.Addr); !ok || sn != "ClawbackVestingAccount" || f != "FunderAddress" {
+					return
+				}
+				nF++
+				v := stripValue(st.Val)
+				canonical := false
+				if c, isC := v.(*ssa.Call); isC {
+					ci := callInfo(c)
+					canonical = ci.Name == "String" && (ci.Recv == "AccAddress" || strings.HasSuffix(ci.Recv, "Address"))
+				}
+				r.Check(canonical, "R13", fnID(fn)+"#FunderAddress-canonical", r.P.Pos(instrPos(in)), "stored value is <address>.String()",
+					"the funder is recorded from a string that is not the canonical String() of a parsed address (a message field as typed by the sender): the authorisation checks compare with the canonical spelling, so the recorded funder may never match again — clawback and grants by the real funder are refused")
+			})
+		}
+		r.Floor("R13", "canonical stores to ClawbackVestingAccount.FunderAddress", nF, 2)
+	}
 	_ = fmt.Sprint
 }
 
